@@ -105,10 +105,11 @@ def rendered_matrix(d, solver, method):
         m2 = re.search(r"colvals\[NNZ\] = \{(.*?)\};", init, re.S)
         rp = [int(x) for x in m1.group(1).replace("\n", " ").split(",") if x.strip()]
         cv = [int(x) for x in m2.group(1).replace("\n", " ").split(",") if x.strip()]
-        body = src[src.index("__global__ void JacKernel"):src.index("int Jac(")]
-        st = ol.extract_statements(body, r"data\[jistart \+ (\d+)\]")
+        # pointer aliases and the per-system offset are resolved first: `data[jistart + 3]`, `data_cur[3]` are one element
+        body = ol.resolve_aliases(src[src.index("__global__ void JacKernel"):src.index("int Jac(")])
+        st = ol.extract_statements(body, r"data\[(\d+)\]")
         dv = [r for l, r in st]
-        idxs = [int(re.match(r"data\[jistart \+ (\d+)\]", l).group(1)) for l, r in st]
+        idxs = [int(re.match(r"data\[(\d+)\]", l).group(1)) for l, r in st]
     out = {}
     ok = idxs == list(range(len(dv))) and len(cv) == len(dv)
     if ok:
